@@ -101,14 +101,15 @@ func verbNamed(n string) bool {
 }
 
 type gen struct {
-	fset      *token.FileSet
-	funcs     map[string]*ast.FuncDecl // "name" or "Recv.name"
-	byBare    map[string][]string
-	cur       string   // function being translated
-	lits      []string // enclosing function literals: "deferred closure" / "closure"
-	luaC      map[string]bool
-	restPhase bool
-	touches   map[string]bool // functions whose source mentions the view counter
+	fset       *token.FileSet
+	funcs      map[string]*ast.FuncDecl // "name" or "Recv.name"
+	byBare     map[string][]string
+	cur        string   // function being translated
+	lits       []string // enclosing function literals: "deferred closure" / "closure"
+	luaC       map[string]bool
+	restPhase  bool
+	guardReads int             // reads of nestedView recognised as the atom V
+	touches    map[string]bool // functions whose source mentions the view counter
 }
 
 // a syntactic use of a context flag outside the translated language
@@ -638,6 +639,11 @@ func (g *gen) stmt(s ast.Stmt, callees *[]string) string {
 	case *ast.BlockStmt:
 		return g.block(x.List, callees)
 	case *ast.IfStmt:
+		before := g.guardReads
+		g.cond(x.Cond)
+		if n := countSel(x.Cond, "nestedView"); n != g.guardReads-before {
+			g.note("nestedView", "read: if "+short(g.text(x.Cond)))
+		}
 		els := "Skip"
 		if x.Else != nil {
 			els = g.stmt(x.Else, callees)
@@ -650,6 +656,9 @@ func (g *gen) stmt(s ast.Stmt, callees *[]string) string {
 	case *ast.RangeStmt:
 		return seq([]string{g.exprs(x.X, callees), "(Loop " + g.block(x.Body.List, callees) + ")"})
 	case *ast.ReturnStmt:
+		if countSel(x, "nestedView") > 0 {
+			g.note("nestedView", "read: "+short(g.text(x)))
+		}
 		var parts []string
 		for _, r := range x.Results {
 			parts = append(parts, g.exprs(r, callees))
@@ -697,6 +706,11 @@ func (g *gen) stmt(s ast.Stmt, callees *[]string) string {
 		return g.clauses(x.Body, callees)
 	case *ast.AssignStmt:
 		parts := []string{g.exprs(x, callees)}
+		for _, r := range x.Rhs {
+			if countSel(r, "nestedView") > 0 {
+				g.note("nestedView", "read: "+short(g.text(x)))
+			}
+		}
 		for _, l := range x.Lhs {
 			if se, ok := l.(*ast.SelectorExpr); ok && flagFields[se.Sel.Name] {
 				g.note(se.Sel.Name, "assign "+g.text(x))
@@ -713,8 +727,33 @@ func (g *gen) stmt(s ast.Stmt, callees *[]string) string {
 		}
 		return seq(parts)
 	default:
+		if _, isFor := s.(*ast.ForStmt); !isFor && countSel(s, "nestedView") > 0 {
+			g.note("nestedView", "read: "+short(g.text(s)))
+		}
 		return g.exprs(s, callees)
 	}
+}
+
+func short(t string) string {
+	if len(t) > 80 {
+		return t[:80] + "..."
+	}
+	return t
+}
+
+// occurrences of the field selector .<name> in a node
+func countSel(n ast.Node, name string) int {
+	c := 0
+	if n == nil {
+		return 0
+	}
+	ast.Inspect(n, func(x ast.Node) bool {
+		if se, ok := x.(*ast.SelectorExpr); ok && se.Sel.Name == name {
+			c++
+		}
+		return true
+	})
+	return c
 }
 
 func (g *gen) clauses(b *ast.BlockStmt, callees *[]string) string {
@@ -770,8 +809,10 @@ func (g *gen) cond(e ast.Expr) string {
 		if strings.HasSuffix(l, ".nestedView") && r == "0" {
 			switch x.Op {
 			case token.GTR, token.NEQ:
+				g.guardReads++
 				return "(CAtom AV)"
 			case token.EQL, token.LEQ:
+				g.guardReads++
 				return "(CNot (CAtom AV))"
 			}
 		}
